@@ -1,2 +1,146 @@
-(* pure_more.ml: evaluators for the remaining pure streams (filled in per component). *)
-let eval (t : string) (_f : string array) : string * string * bool = failwith ("unknown tag " ^ t)
+(* pure_more.ml: evaluators for the pure streams CC (confchange), IF (tracker.Inflights) and
+   ST (MemoryStorage): the same operation sequence the Go harness ran on the implementation is
+   run on the extracted model and rendered in the same text form. *)
+open Model
+open Conv
+open Trace
+
+let split_plus s = if s = "" then [] else String.split_on_char '+' s
+
+(* ---------- CC ---------- *)
+
+let parse_changes (s : string) : cc_single list =
+  if s = "_" || s = "" then []
+  else
+    List.map
+      (fun w ->
+        match String.split_on_char '.' w with
+        | [ t; id ] ->
+          { ccs_type = (match t with "0" -> CCAddNode | "1" -> CCRemoveNode | "2" -> CCUpdateNode | "3" -> CCAddLearnerNode | _ -> CCUnknown);
+            ccs_node = ns id }
+        | _ -> failwith "bad change")
+      (String.split_on_char ',' s)
+
+let prs_s (p : (n * progress) list) : string =
+  let p = List.sort (fun (a, _) (b, _) -> compare (int_of_n a) (int_of_n b)) p in
+  list_or ","
+    (List.map
+       (fun (id, pr) ->
+         Printf.sprintf "%s:%s:%s:%s:%s" (sn id) (b2s pr.pr_is_learner) (sn pr.pr_match) (sn pr.pr_next) (b2s pr.pr_recent_active))
+       p)
+
+let fresh_tracker () = make_tracker (n_of_int 4) N0
+
+let eval_cc (ops : string) : string =
+  let t = ref (fresh_tracker ()) in
+  let one (w : string) : string =
+    let r =
+      match w.[0] with
+      | 'L' -> changer_leave_joint !t
+      | 'S' ->
+        (match String.split_on_char ':' (String.sub w 1 (String.length w - 1)) with
+         | [ li; ch ] -> changer_simple !t (ns li) (parse_changes ch)
+         | _ -> failwith "bad S")
+      | 'E' ->
+        (match String.split_on_char ':' (String.sub w 1 (String.length w - 1)) with
+         | [ li; auto; ch ] -> changer_enter_joint !t (ns li) (auto = "1") (parse_changes ch)
+         | _ -> failwith "bad E")
+      | 'R' ->
+        let body = String.sub w 1 (String.length w - 1) in
+        let i = String.index body ':' in
+        let li = String.sub body 0 i and cs = String.sub body (i + 1) (String.length body - i - 1) in
+        t := fresh_tracker ();
+        cc_restore !t (ns li) (parse_confstate cs)
+      | _ -> failwith "bad op"
+    in
+    match r with
+    | Inl (c, p) ->
+      t := t_with_config_progress !t c p;
+      config_s c ^ "/" ^ prs_s p
+    | Inr _ -> "ERR"
+  in
+  String.concat "+" (List.map one (split_plus ops))
+
+(* ---------- IF ---------- *)
+
+let eval_if (size : string) (maxb : string) (ops : string) : string =
+  let fresh () = new_inflights (ns size) (ns maxb) in
+  let i = ref (fresh ()) in
+  let out = ref [] in
+  (try
+     List.iter
+       (fun w ->
+         (match w.[0] with
+          | 'A' ->
+            (match String.split_on_char '.' (String.sub w 1 (String.length w - 1)) with
+             | [ a; b ] ->
+               (match infl_add !i (ns a) (ns b) with
+                | Ok i' -> i := i'
+                | Panic _ -> out := "PANIC" :: !out; raise Exit)
+             | _ -> failwith "bad A")
+          | 'F' -> i := infl_free_le !i (ns (String.sub w 1 (String.length w - 1)))
+          | _ -> i := fresh ());
+         out := Printf.sprintf "%s.%s" (sn (infl_count !i)) (b2s (infl_full !i)) :: !out)
+       (split_plus ops)
+   with Exit -> ());
+  String.concat "+" (List.rev !out)
+
+(* ---------- ST ---------- *)
+
+let st_err = function
+  | ENone -> "ok" | ErrCompacted -> "compacted" | ErrUnavailable -> "unavailable" | ErrSnapOutOfDate -> "snapoutofdate" | _ -> "err"
+
+let one_voter : confstate =
+  { cs_voters = [ n_of_int 1 ]; cs_learners = []; cs_voters_outgoing = []; cs_learners_next = []; cs_auto_leave = false }
+
+let eval_st (ops : string) : string =
+  let s = ref new_memstorage in
+  let out = ref [] in
+  let rest w = String.sub w 1 (String.length w - 1) in
+  (try
+     List.iter
+       (fun w ->
+         let r =
+           match w.[0] with
+           | 'A' ->
+             (match ms_append !s (parse_entries (rest w)) with
+              | Ok s' -> s := s'; "ok"
+              | Panic _ -> out := "PANIC" :: !out; raise Exit)
+           | 'C' ->
+             (match ms_compact !s (ns (rest w)) with
+              | Ok (s', e) -> s := s'; st_err e
+              | Panic _ -> out := "PANIC" :: !out; raise Exit)
+           | 'S' ->
+             (match ms_create_snapshot !s (ns (rest w)) (Some one_voter) [] with
+              | Ok ((s', _), e) -> s := s'; st_err e
+              | Panic _ -> out := "PANIC" :: !out; raise Exit)
+           | 'P' ->
+             (match String.split_on_char '.' (rest w) with
+              | [ a; b ] ->
+                let s', e = ms_apply_snapshot !s { s_index = ns a; s_term = ns b; s_conf = one_voter; s_data = [] } in
+                s := s'; st_err e
+              | _ -> failwith "bad P")
+           | 'E' ->
+             (match String.split_on_char '.' (rest w) with
+              | [ a; b; c ] ->
+                (match ms_entries !s (ns a) (ns b) (ns c) with
+                 | Ok (es, e) -> st_err e ^ "=" ^ entries_s es
+                 | Panic _ -> out := "PANIC" :: !out; raise Exit)
+              | _ -> failwith "bad E")
+           | 'T' ->
+             let t, e = ms_term !s (ns (rest w)) in
+             Printf.sprintf "%s=%s" (st_err e) (sn t)
+           | _ -> failwith "bad op"
+         in
+         let sn0 = ms_get_snapshot !s in
+         out := Printf.sprintf "%s@%s.%s.%s.%s" r (sn (ms_first_index !s)) (sn (ms_last_index !s)) (sn sn0.s_index) (sn sn0.s_term) :: !out)
+       (split_plus ops)
+   with Exit -> ());
+  String.concat "+" (List.rev !out)
+
+let eval (t : string) (f : string array) : string * string * bool =
+  match t with
+  | "CC" -> (eval_cc f.(1), f.(2), true)
+  | "IF" -> (eval_if f.(1) f.(2) f.(3), f.(4), true)
+  | "ST" -> (eval_st f.(1), f.(2), true)
+  | _ -> failwith ("unknown tag " ^ t)
